@@ -14,6 +14,7 @@ import (
 	"strconv"
 	"strings"
 	"sync"
+	"sync/atomic"
 	"time"
 
 	"github.com/jhalter/mobius/hotline"
@@ -461,3 +462,25 @@ var (
 	tempBanText = []byte("You are temporarily banned on this server")
 	incorrectLg = []byte("Incorrect login.")
 )
+
+// stalls counts cases in which the real server did not produce what every model run says it
+// produces (a wait ran into its timeout).  After a few of them the failure is on record and the
+// remaining cases of wait-heavy families are skipped so that the check still ends quickly.
+var stalls atomic.Int64
+
+const stallLimit = 3
+
+func tooManyStalls() bool { return stalls.Load() >= stallLimit }
+
+// fixtureLoginFailed: a plain, valid login of a fixture client (bystander, administrator, …) was
+// not answered.  A single occurrence is tolerated (machine hiccup); repeated ones are reported.
+var fixtureFails atomic.Int64
+
+func fixtureLoginFailed(c *Case, what string) {
+	c.Dist("skipped/fixture-login")
+	stalls.Add(1)
+	if fixtureFails.Add(1) >= 3 {
+		c.Note("fixture", what)
+		c.Disagree("fixture-login-failed", "valid logins of fixture clients are repeatedly not answered by the real connection handler: "+what)
+	}
+}
